@@ -682,7 +682,81 @@ def workloads(ctx):
     nfx = 18
     return [("reads", nfx * (12 if q else 240), wl_reads), ("positions", nfx * (1 if q else 8), wl_positions),
             ("history", nfx * 4 * (1 if q else 12), wl_history), ("failpoints", nfx * (1 if q else 3), wl_failpoints),
-            ("relabelled", nfx * (1 if q else 6), wl_relabelled)]
+            ("relabelled", nfx * (1 if q else 6), wl_relabelled), ("user_reader", 60 if q else 1200, wl_user_reader)]
+
+
+class ArrayReader(pb.readers.BaseReader):
+    """A user-defined reader (the documented extension point): samples served from an in-memory array."""
+
+    def __init__(self, array, **kw):
+        self._array = array
+        super().__init__(shape=array.shape, dtype=array.dtype, **kw)
+
+    def _read_array(self, offset, n, /, **kwargs):
+        return self._array[offset:offset + n].copy()
+
+
+def wl_user_reader(ctx, idx, rng):
+    """The base-class behaviour through a user subclass, with and without a start time."""
+    o = "positions"
+    L = int(gen.pick(rng, [1, 7, 100, 1000]))
+    shape = (L,) + gen.pick(rng, [(), (3,), (2, 2)])
+    arr = gen.rand_data(rng, shape, gen.pick(rng, [np.float32, np.complex64, np.int16]))
+    rate_q = gen.rand_rate(rng, lo=0, hi=8)
+    start = gen.rand_time(rng, p_none=0.5)
+    with probes.quiet():
+        r = ArrayReader(arr, sample_rate=rate_q, start_time=start)
+    rate = exact.hz(rate_q)
+    ctx.describe_case({"reader": "ArrayReader", "len": L, "start": None if start is None else start.isot, "rate": str(rate_q)})
+    ctx.count("oracle[user_reader]")
+    if len(r) != L:
+        ctx.violation(o, f"ArrayReader: len = {len(r)}, the array has {L} samples", None, {"what": "len"})
+    for k in sorted(set([0, L // 2, L] + [int(v) for v in rng.integers(0, L + 1, size=2)])):
+        unit = gen.pick(rng, [u.s, u.ms, u.us])
+        q, exc = ctx.call(o, r.time_at, k, unit=unit, where="time_at(k, unit=)")
+        if exc is None:
+            if not isinstance(q, u.Quantity):
+                ctx.violation(o, f"ArrayReader(start_time={'None' if start is None else 'set'}): time_at({k}, unit={unit}) returned {q!r}, "
+                                 "not the time relative to the start", None, {"what": "relative_time", "has_start": start is not None})
+            else:
+                d = F(float(q.to_value(u.s))) - F(k) / rate
+                if abs(d) > exact.REL * F(k) / rate + F(1, 10 ** 18):
+                    ctx.violation(o, f"ArrayReader: time_at({k}, unit=) is {float(d * rate):+.3g} samples off", None, {"what": "relative_time_value"})
+                k2, exc2 = ctx.call(o, r.offset_at, q, where="offset_at(relative time)")
+                if exc2 is None and k2 != k:
+                    ctx.violation(o, f"ArrayReader: offset_at(time_at({k}, unit={unit})) = {k2}", None, {"what": "round_trip_relative"})
+        t, exc = ctx.call(o, r.time_at, k, where="time_at(k)")
+        if exc is None:
+            if start is None:
+                if t is not None:
+                    ctx.violation(o, f"ArrayReader without a start time: time_at({k}) = {t!r}", None, {"what": "absolute_without_start"})
+            else:
+                d = exact.time_diff_s(t, start) - F(k) / rate
+                if abs(d) > exact.time_tol(F(k) / rate, 2):
+                    ctx.violation(o, f"ArrayReader: time_at({k}) is {float(d * rate):+.4g} samples off", None, {"what": "time_at"})
+                k3, exc3 = ctx.call(o, r.offset_at, t, where="offset_at(absolute time)")
+                if exc3 is None and k3 != k:
+                    ctx.violation(o, f"ArrayReader: offset_at(time_at({k})) = {k3}", None, {"what": "round_trip"})
+        if k < L:
+            n = int(min(L - k, rng.integers(0, 9)))
+            for how in ("read", "dask_read"):
+                if how == "dask_read" and n == 0:
+                    continue        # the recorded finding dask-read-zero-samples (judged in the reads workload)
+                sg, exc = ctx.call(o, getattr(r, how), k, n, where=how)
+                if exc is None:
+                    with probes.quiet():
+                        got = gen.np_data(sg)
+                    if got.shape != arr[k:k + n].shape or not np.array_equal(got, arr[k:k + n]):
+                        ctx.violation(o, f"ArrayReader.{how}({k}, {n}) does not return samples [{k}:{k + n}] of the array", None, {"what": "data"})
+                    if (sg.start_time is None) != (start is None):
+                        ctx.violation(o, f"ArrayReader.{how}: start_time presence differs from the reader's", None, {"what": "start_presence"})
+                    elif start is not None:
+                        dd = exact.time_diff_s(sg.start_time, start) - F(k) / rate
+                        if abs(dd) > exact.time_tol(F(k) / rate, 2):
+                            ctx.violation(o, f"ArrayReader.{how}({k}, {n}).start_time is {float(dd * rate):+.4g} samples off", None, {"what": "read_start"})
+    ctx.call(o, r.read, L, 1, expect=EOFError, where="read(len, 1)")
+    ctx.call(o, r.read, -1, 1, expect=ValueError, where="read(-1, 1)")
+    ctx.bucket("user_reader", L, start is None, len(shape))
 
 
 def wl_relabelled(ctx, idx, rng):
